@@ -537,6 +537,19 @@ Qed.
 Lemma zeqb_of_N a b : (Z.of_N a =? Z.of_N b)%Z = (a =? b).
 Proof. destruct (Z.eqb_spec (Z.of_N a) (Z.of_N b)), (N.eqb_spec a b); try reflexivity; lia. Qed.
 
+Lemma ref_item_suffix_early rc t wt target bs v r : ref_item rc t wt target bs = IOk v r ->
+  exists pre, bs = pre ++ r /\ (1 <= length pre)%nat.
+Proof.
+  destruct t as [k|m]; cbn [ref_item].
+  - destruct (ref_scalar k wt bs) as [v0 r0| |] eqn:Es; try discriminate. intro H; injection H as <- <-.
+    apply ref_scalar_ok in Es. tauto.
+  - destruct (negb (wt =? WT_BYTES)); [discriminate|].
+    destruct (pw_bytes bs) as [[payload r0]|] eqn:Eb; [|discriminate].
+    destruct (rc m target payload); try discriminate. intro H; injection H as <- <-.
+    apply pw_bytes_suffix in Eb. destruct Eb as (hdr & Hb & Hl).
+    exists (hdr ++ payload). split; [rewrite <- app_assoc; exact Hb|rewrite app_length; lia].
+Qed.
+
 Lemma entry_ok rc pc : child_ok rc pc -> forall f kk t key value entry k v,
   ref_entry true rc f kk t key value entry = Ok (k, v) ->
   forall f' tail, (f <= f')%nat -> bounded (entry ++ tail) ->
@@ -561,14 +574,29 @@ Proof.
       - apply ref_scalar_ok in Es. destruct Es as (_ & (pre1 & Hp1 & Hl1) & Hd). destruct (Hd tail Hbr) as [-> _].
         assert (Hb' : bounded (r1 ++ tail)) by (unfold bounded in *; rewrite Hp1, !app_length in Hbr; rewrite app_length; lia).
         pose proof (IH _ _ _ _ _ _ _ H f' tail Hf' Hb') as Hgo.
-        rewrite <- Hgo. f_equal. rewrite Hp, Hp1, !app_length. lia.
+        replace (Z.of_nat (length entry) - (Z.of_nat (length (entry ++ tail)) - Z.of_nat (length (r1 ++ tail))))%Z
+          with (Z.of_nat (length r1)) by (rewrite Hp, Hp1, !app_length; lia).
+        destruct (Z.ltb_spec (Z.of_nat (length r1)) 0) as [?|_]; [lia|]. exact Hgo.
       - destruct (pw_skip_value (S (length r)) num wt r); cbn in H; discriminate. }
     destruct (N.eqb_spec num 2) as [E2|N2].
     { destruct (ref_item rc t wt value r) as [v1 r1| | | |] eqn:Ei; try discriminate.
-      - apply (item_ok _ _ _ _ _ _ _ _ Hc) in Ei. destruct Ei as (_ & (pre1 & Hp1 & Hl1) & Hd). rewrite (Hd tail Hbr).
+      - pose proof (ref_item_suffix_early _ _ _ _ _ _ _ Ei) as (pre1 & Hp1 & Hl1).
         assert (Hb' : bounded (r1 ++ tail)) by (unfold bounded in *; rewrite Hp1, !app_length in Hbr; rewrite app_length; lia).
         pose proof (IH _ _ _ _ _ _ _ H f' tail Hf' Hb') as Hgo.
-        rewrite <- Hgo. f_equal. rewrite Hp, Hp1, !app_length. lia.
+        assert (Hk : (Z.of_nat (length entry) - (Z.of_nat (length (entry ++ tail)) - Z.of_nat (length (r1 ++ tail))))%Z
+                     = Z.of_nat (length r1)) by (rewrite Hp, Hp1, !app_length; lia).
+        destruct t as [kd|m]; cbn [ref_item] in Ei.
+        + destruct (ref_scalar kd wt r) as [v0 r0| |] eqn:Es; try discriminate. injection Ei as -> ->.
+          apply ref_scalar_ok in Es. destruct Es as (_ & _ & Hd). destruct (Hd tail Hbr) as [-> _].
+          rewrite Hk. destruct (Z.ltb_spec (Z.of_nat (length r1)) 0) as [?|_]; [lia|]. exact Hgo.
+        + destruct (negb (wt =? WT_BYTES)); [discriminate|].
+          destruct (pw_bytes r) as [[payload r0]|] eqn:Eb; [|discriminate].
+          destruct (rc m value payload) as [v0| | |] eqn:Ec; try discriminate. injection Ei as -> ->.
+          rewrite (pw_bytes_take_len _ _ _ tail Eb Hbr).
+          rewrite Hk. destruct (Z.ltb_spec (Z.of_nat (length r1)) 0) as [?|_]; [lia|].
+          rewrite (Hc m value payload v1); [exact Hgo| |exact Ec].
+          apply pw_bytes_suffix in Eb. destruct Eb as (hdr & Hbb & _).
+          unfold bounded in *. rewrite Hbb, !app_length in Hbr. lia.
       - destruct (pw_skip_value (S (length r)) num wt r); [|discriminate].
         destruct (N.eqb_spec num 1); cbn in H; discriminate. }
     destruct (pw_skip_value (S (length r)) num wt r) as [r'|] eqn:Esk; [|discriminate].
